@@ -6,9 +6,10 @@ CFG = dict(
     coq_targets=['proofs/AliasSitesProofs.vo', 'proofs/AliasBodiesProofs.vo', 'props/C19.vo'],
     gen_lemmas=['no_unframed_sites (gen/AliasSites.v regenerated from /repo: no append-on-parameter, store-parameter or return-field site)',
                 'every_site_program_ok (every copy site of /repo as a ONE-instruction program of model/Heap.v: the selection criterion implies it; kept as a count of the copy sites)',
-                'every_body_ok (gen/AliasBodies.v regenerated from /repo: every translated function BODY passes the ownership analysis of model/HeapProg.v from its initial flags)',
-                'api_bodies_own_nothing (every exported function of a non-internal package outside the explicit exception list starts with no owned parameter)',
-                'body_counts_add_up (considered = translated + untranslated)'],
+                'every_body_ok (gen/AliasBodies.v regenerated from /repo: every translated function BODY passes the three-flag ownership analysis of model/HeapProg.v from its write/keep flags, copies no object register, and every CALL RECORD meets the contract of the table entry it names)',
+                'api_bodies_own_nothing (every exported function of a non-internal package outside the explicit exception list starts with no writable and no keepable parameter)',
+                'immutable_types_are_not_written (no entry writes through a parameter whose type is in the emitted whitelist c19_immutable_types)',
+                'body_counts_add_up (considered = translated + untranslated; number of entries that can fail)'],
     corr='Heap.run_prog (model/Heap.v) vs the Go runtime on random slice programs (make/sub-slice/append/copy/Concat/Clone/write)',
     rule='P cases: random slice programs, class = set of instruction kinds x length bucket, non-trivial when the program appends, copies or writes; G cases: the guard-region catalogue (every template x {primitive calls, accessors/serialization}, every subtle constructor, legacy adapters x prefix types), class = catalogue entry',
     assumptions=['Go slice semantics as modelled in model/Heap.v (validated on the random programs of this run)',
@@ -30,12 +31,13 @@ def _body_coverage():
         num = lambda n: re.search(r'Definition %s : nat := (\d+)\.' % n, src).group(1)
         i, j = src.index('Definition c19_body_untranslated'), src.index('Definition c19_body_exceptions')
         untr = re.findall(r'\("([^"]*)", "([^"]*)", "([^"]*)"\)', src[i:j])
-        exc = sorted(set(re.findall(r'\("([^"]*)", "([^"]*)", "[^"]*"\)', src[j:])))
-        return ('body-level tie of this run: %s function bodies considered (%s interface-only helpers, %s function literals), %s translated (%s API, %s instructions); '
-                'UNTRANSLATED (covered only by the guard-region catalogue): %s; API functions in the exception list: %s'
+        exc = sorted(set(re.findall(r'\("([^"]*)", "([^"]*)", "[^"]*"\)', src[j:src.index('(* WHITELIST')])))
+        wl = len(re.findall(r'\("[^"]*", "[^"]*"\)', src[src.index('Definition c19_immutable_types'):src.index('(* considered =')]))
+        return ('body-level tie of this run: %s function bodies considered (%s interface-only helpers, %s function literals), %s translated (%s API, %s instructions, %s call records checked in Coq; %s entries contain a statement on which the analysis can fail, the others only allocate, read and return); %s types in the whitelist of immutable object types; '
                 % (num('c19_bodies_considered'), num('c19_bodies_helpers_with_interface_parameters'), num('c19_bodies_function_literals'),
-                   num('c19_bodies_translated'), num('c19_bodies_api'), num('c19_bodies_instructions'),
-                   '; '.join(f'{a} {b}: {c}' for a, b, c in untr) or 'none', ', '.join(f'{a} {b}' for a, b in exc) or 'none'))
+                   num('c19_bodies_translated'), num('c19_bodies_api'), num('c19_bodies_instructions'), num('c19_bodies_call_records'), num('c19_bodies_that_can_fail'), wl) +
+                'UNTRANSLATED (covered only by the guard-region catalogue): %s; API functions in the exception list: %s'
+                % ('; '.join(f'{a} {b}: {c}' for a, b, c in untr) or 'none', ', '.join(f'{a} {b}' for a, b in exc) or 'none'))
     except Exception as e:  # pragma: no cover
         return 'body-level tie: coverage could not be read (%s)' % e
 
@@ -76,13 +78,13 @@ MANIFEST = dict(
     text='PARTIAL. Theorems in coq/props/C19.v over a slice/heap model with array identity and capacity (model/Heap.v, validated against the Go runtime on random slice programs in every run). '
          '(1) Idioms, for all heaps and slices: slices.Concat and bytes.Clone never modify an existing array and return a fresh one; append with spare capacity writes into the caller\'s array (append-on-parameter refuted by a witness); message suffixing by Concat, constructor-stores-a-clone and accessor-returns-a-clone satisfy the frame property. '
          '(2) Straight-line programs (C19_disciplined_program_frames_the_caller): a program that writes only through slices obtained from its own allocations leaves every view the caller has of its memory unchanged, up to capacity, and owns only fresh arrays; each forbidden instruction is refuted by a witness. '
-         '(3) FUNCTION BODIES (model/HeapProg.v, C19_disciplined_body_frames_the_caller, induction over executions): a structured language - registers, the slice operations with freely chosen indices/lengths/bytes, opaque callee writes, stores into objects, escapes (return / store in a shared object / kept by a callee), branches, loops with break/continue, early return, abort at any point (panic) - and an ownership analysis (flags joined with AND at control-flow joins, loop heads lowered to a fixpoint). A body that passes the analysis from initial flags own0 changes, on EVERY execution, no caller array except those of the parameters flagged in own0, and lets escape only slices in arrays allocated during the call or in those flagged parameters; non-vacuity example and three refutations (callee write into / append to / keeping a parameter) included. '
-         'THE TIE TO THE SOURCE (regenerated from /repo on every run, gen/AliasBodies.v): the translator emits the slice-relevant behaviour of the BODY of every function, method and capture-free function literal of the library\'s non-test packages that has a byte-carrying parameter, receiver or result ([]byte, *[N]byte, [][]byte, structs with such fields), plus the internal helpers that only take interface values. Call sites carry the callee\'s effect: a trusted table for callees outside the library, an inferred summary (parameters written through / kept, what each result may alias; global fixpoint) for callees inside, joined over all candidate implementations for calls through interfaces and function values. Obligations, checked by computation in Coq on the table: every translated body passes the ownership analysis from its initial flags (every_body_ok); an exported function or method of a non-internal package outside the explicit exception list starts with NO owned parameter or receiver memory (api_bodies_own_nothing), so by C19_every_api_function_body_frames_the_caller it changes nothing the caller can see and everything it returns or stores is freshly allocated; an internal helper is checked under its inferred contract (the parameters it writes or keeps), which every call site must satisfy with owned slices (C19_every_function_body_frames_the_caller). '
-         'COVERAGE at the pinned commit: 1402 function bodies considered (1243 by the definition above, 118 interface-only helpers, 41 function literals), 1400 translated (808 API functions, 10411 instructions), 2 UNTRANSLATED with their reasons in c19_body_untranslated (a closure with return statements in streamingaead decryptReader.Read; a call through registry.PrivateKeyManager with no implementation inside the library); 17 API functions are in the exception list c19_body_exceptions with the reason (per-stream io.Writer/io.Reader objects and their constructors, Read(p) filling the caller\'s buffer, the ...WithDst segment functions that write into dst by contract, two constructors that take a POINTER to the caller\'s ed25519 key). Untranslated functions, excepted functions, and object-level sharing (returning or keeping an object that somebody else built, e.g. a key serialization instead of its clone) are covered ONLY by the guard-region catalogue. '
+         '(3) FUNCTION BODIES (model/HeapProg.v, C19_disciplined_body_frames_the_caller, induction over executions): a structured language - registers (an object register stands for one may-alias class of objects and is never copied), the slice operations with freely chosen indices/lengths/bytes, opaque callee writes, stores into objects, escapes (return / store in a shared object / kept by a callee), call records, branches, loops with break/continue, early return, abort at any point (panic) - and an ownership analysis with three flags per register (may be WRITTEN through, may be KEPT, object is PRIVATE = built here and not yet handed out; joined with AND at control-flow joins, loop heads lowered to a fixpoint; a store into a private object only lowers its flags, a store into any other object lets the stored value escape). A body that passes the analysis from the write flags / keep flags of its parameters changes, on EVERY execution, no caller array except those of the write-flagged parameters, and lets escape only slices in arrays allocated during the call or in those of the keep-flagged parameters. Non-vacuity example, three refutations (callee write into / append to / keeping a parameter), and negative examples: the pointer-alias probes of the third audit (o2 := o1; o2.buf = x; return o1, chains, loops) are rejected both as written (an object register may not be copied) and in the one-register-per-class form the translator emits; a Read(p) exemption grants write but not keep; a store into an object after it was handed out is an escape. '
+         'THE TIE TO THE SOURCE (regenerated from /repo on every run, gen/AliasBodies.v): the translator emits the slice-relevant behaviour of the BODY of every function, method and capture-free function literal of the library\'s non-test packages that has a byte-carrying parameter, receiver or result ([]byte, *[N]byte, [][]byte, structs / pointers / containers that reach such, to any depth), plus the internal helpers that only take interface values. OBJECTS: a struct or pointer the function was handed counts like a byte slice it was handed - storing, returning or passing it on to a keeper is an escape - unless its type is in the emitted whitelist c19_immutable_types (library struct types whose byte-reaching fields are all unexported and through whose values no translated function writes, stores, or hands out a view; plus six standard-library key types, trusted); variables between which a pointer flows share one register (flow-insensitive union-find), so a store through any alias lowers all. Call sites are call records SCall: the caller\'s registers handed to each parameter of the callee and the effect attributed to the call. Obligations, checked by computation in Coq on the table: every translated body passes the analysis from its flags and copies no object register; EVERY CALL RECORD MEETS THE CONTRACT of the table entry it names (a register handed to a parameter the callee may write through is written through in the effect, one handed to a parameter it may keep escapes in the effect - the inter-procedural half is an obligation over the table; for calls through interfaces and function values one record per candidate implementation); an exported function or method of a non-internal package outside the explicit exception list has NO write flag and NO keep flag (api_bodies_own_nothing), so by C19_every_api_function_body_frames_the_caller it changes nothing the caller can see and every byte slice it returns or stores - directly or inside an object that is followed - is freshly allocated; no entry writes through a parameter of a whitelisted type (immutable_types_are_not_written). Still trusted to the translator: what the RESULT of a call may alias, the table for callees outside the library, the classification of types, the may-alias classes. '
+         'COVERAGE at the pinned commit (4204d42): 1438 function bodies considered (1279 by the definition above, 118 interface-only helpers, 41 function literals), 1436 translated (842 API functions, 12471 instructions, 3040 call records), of which 790 contain a statement on which the analysis can fail at all (a write, append, store or escape; the other 646 only allocate, read, slice and return what they allocated); 2 UNTRANSLATED with their reasons in c19_body_untranslated (a closure with return statements in streamingaead decryptReader.Read; a call through registry.PrivateKeyManager with no implementation inside the library). Constructs outside the subset make a function UNTRANSLATED rather than being dropped: goto/labels, select, byte data on channels, deferred or concurrent calls with byte effects, closures with captures that are not inlinable, unknown callees with byte arguments, external byte results beyond what the table speaks for, packages with type errors, types too deep to classify (none at this commit). 21 API functions are in the exception list c19_body_exceptions with the reason (per-stream io.Writer/io.Reader objects and their constructors; Read(p) filling the caller\'s buffer: write, not keep; the ...WithDst segment functions that write into dst by contract; keyset.MemReaderWriter, whose documented purpose is to hold the keyset object it is given; two constructors that take a POINTER to the caller\'s ed25519 key). internal/protoserialization.NewKeySerialization and KeySerialization.KeyData are internal: their entries show that the serialization holds / hands out the KeyData it was given (result aliases the argument), and every API caller is checked against that. 113 types are whitelisted as immutable. Untranslated and excepted functions are covered ONLY by the guard-region catalogue. '
          'The older copy-site table (one Clone/Concat instruction per site; the selection criterion implies the conclusion) is kept as C19_every_single_copy_site_is_framed and as the obligation that no site appends to / stores / returns a byte slice without a copy. '
-         'The search for a concrete failing input is the guard-region catalogue run against the real code: inputs inside canary-filled buffers with spare capacity for every primitive class/key type incl. legacy adapters, then inputs/outputs mutated and keys/handles/later results compared with pristine copies (reflection over all key and parameter accessors), every subtle constructor (now incl. the ED25519 signer/verifier). '
-         'Finding of the body-level tie (repaired in /repo 244d1a5, seeded/X-revert-244d1a5): signature/subtle.NewED25519Verifier kept the caller\'s public-key slice.',
-    note='Trusted: Coq kernel, extraction, the Go harness, the translator (harness/cmd/translate/bodies_*.go, alias.go) including: the classification of types that can reach byte memory; the encapsulation rule for objects (an object the function was handed may be stored or returned as a whole; its byte fields, when selected, are memory the function does not own; objects built in the function are followed, and a function in which a callee writes through a built object that may hold handed-in objects is reported untranslated); the closed-world resolution of calls through interfaces and function values; the exception list. Not modelled: aliasing inside the Go standard library and the protobuf runtime beyond the call table; goroutines, deferred calls with byte arguments, channels of byte data, goto/labels (such functions are reported untranslated). The catalogue samples message sizes; it is a search, not a proof. '
+         'The search for a concrete failing input is the guard-region catalogue run against the real code: inputs inside canary-filled buffers with spare capacity for every primitive class/key type incl. legacy adapters, then inputs/outputs mutated and keys/handles/later results compared with pristine copies (reflection over all key and parameter accessors), every subtle constructor (now incl. the ED25519 signer/verifier and the KMS envelope AEAD constructors). '
+         'Findings of the body-level tie, both repaired in /repo and kept as seeded reverts: signature/subtle.NewED25519Verifier kept the caller\'s public-key slice (244d1a5); aead.NewKMSEnvelopeAEAD2 / NewKMSEnvelopeAEADWithContext kept the caller\'s KeyTemplate proto (4204d42). All eleven stored aliasing seeds, incl. the object-level C19-fallback-private-key-alias, break the body-level obligation.',
+    note='Trusted: Coq kernel, extraction, the Go harness, the translator (harness/cmd/translate/bodies_*.go, alias.go) as far as it is not re-checked on the table: the classification of types that can reach byte memory; the flow-insensitive may-alias classes of object variables; which objects were built in the function (all others are unowned); what the result of a call may alias and which argument a callee stores into which (summaries, global fixpoint); the closed-world resolution of calls through interfaces and function values (library types ever converted to an interface, exported types of public packages; functions ever used as values); the exception list; the six standard-library types of the whitelist. Re-checked in Coq on the table: discipline of every body, no copy of an object register, every call record against the callee\'s write/keep contract, API flags, whitelist not written. Not modelled: aliasing inside the Go standard library and the protobuf runtime beyond the call table (proto.Clone and proto.Unmarshal copy; generated getters return views of the message they are called on); goroutines, deferred calls with byte effects, channels of byte data, goto/labels (such functions are reported untranslated). The catalogue samples message sizes; it is a search, not a proof. '
          + _call_table(),
-    technique='Coq frame theorems over a slice/heap model (idioms, straight-line programs, structured function bodies with an ownership analysis) + regenerated table of translated function bodies with computed obligations + differential run of the heap model against the Go runtime; guard-region catalogue as failing-input search',
+    technique='Coq frame theorems over a slice/heap model (idioms, straight-line programs, structured function bodies with a three-flag ownership analysis) + regenerated table of translated function bodies with computed obligations incl. call records checked against callee contracts + differential run of the heap model against the Go runtime; guard-region catalogue as failing-input search',
 )
